@@ -18,7 +18,7 @@ CONSTANTS
   MaxLfq = 2
   MaxInflight = 3
   KnownC27 = {}
-  KnownC28 = {"keepalive/KeepAlive/housekeeping-in-Server"}
+  KnownC28 = {"keepalive/KeepAlive/housekeeping-in-Server-before-sent"}
   KnownC29 = {}
 INIT MInit
 NEXT MNext
